@@ -2,6 +2,11 @@
 
 package jmespath
 
+import (
+	"math"
+	"unicode/utf8"
+)
+
 // Specification functions for the contract-based verification in /verif
 // (build tag "verif"; not compiled into the library otherwise).
 //
@@ -104,4 +109,127 @@ func specPySlice(a []interface{}, parts []sliceParam) []interface{} {
 		return specWalkUp(a, start, stop, step, specEmptyList())
 	}
 	return specWalkDown(a, start, stop, step, specEmptyList())
+}
+
+// ---------------------------------------------------------------------------
+// JSON value domain (C16) and truthiness / equality (C07).
+// specFinite, specJSONVal and specDeepEq have quantified SMT definitions in
+// /verif/spec/raw_specs.smt2; the Go bodies below are their native twins.
+
+func specFinite(f float64) bool {
+	return !math.IsNaN(f) && !math.IsInf(f, 0)
+}
+
+func specJSONVal(v interface{}) bool {
+	switch t := v.(type) {
+	case nil, bool, string:
+		return true
+	case float64:
+		return specFinite(t)
+	case []interface{}:
+		if t == nil {
+			return false
+		}
+		for _, e := range t {
+			if !specJSONVal(e) {
+				return false
+			}
+		}
+		return true
+	case map[string]interface{}:
+		if t == nil {
+			return false
+		}
+		for _, e := range t {
+			if !specJSONVal(e) {
+				return false
+			}
+		}
+		return true
+	}
+	return false
+}
+
+func specDeepEq(a interface{}, b interface{}) bool {
+	switch x := a.(type) {
+	case nil:
+		return b == nil
+	case bool:
+		y, ok := b.(bool)
+		return ok && x == y
+	case float64:
+		y, ok := b.(float64)
+		return ok && x == y
+	case string:
+		y, ok := b.(string)
+		return ok && x == y
+	case []interface{}:
+		y, ok := b.([]interface{})
+		if !ok || (x == nil) != (y == nil) || len(x) != len(y) {
+			return false
+		}
+		for i := range x {
+			if !specDeepEq(x[i], y[i]) {
+				return false
+			}
+		}
+		return true
+	case map[string]interface{}:
+		y, ok := b.(map[string]interface{})
+		if !ok || (x == nil) != (y == nil) || len(x) != len(y) {
+			return false
+		}
+		for k, xv := range x {
+			yv, present := y[k]
+			if !present || !specDeepEq(xv, yv) {
+				return false
+			}
+		}
+		return true
+	}
+	return false
+}
+
+// specFalse is the JMESPath truth definition: null, false, "", [] and {} are
+// false-like; everything else (including 0) is true-like.
+func specFalse(v interface{}) bool {
+	switch t := v.(type) {
+	case nil:
+		return true
+	case bool:
+		return !t
+	case string:
+		return len(t) == 0
+	case []interface{}:
+		return len(t) == 0
+	case map[string]interface{}:
+		return len(t) == 0
+	}
+	return false
+}
+
+// ---------------------------------------------------------------------------
+// Lexer cursor (C05, C14, C17).
+
+// specLexOK is the lexer's cursor invariant. (lastWidth <= currentPos holds
+// right after next() but not after back(), so it is stated separately.)
+func specLexOK(expr string, pos int, width int) bool {
+	return 0 <= pos && pos <= len(expr) && 0 <= width && width <= 4
+}
+
+// specRuneAt / specWidthAt: the rune that starts at byte offset pos, and its width.
+func specRuneAt(expr string, pos int) rune {
+	if pos < 0 || pos > len(expr) {
+		return utf8.RuneError
+	}
+	r, _ := utf8.DecodeRuneInString(expr[pos:])
+	return r
+}
+
+func specWidthAt(expr string, pos int) int {
+	if pos < 0 || pos > len(expr) {
+		return 0
+	}
+	_, w := utf8.DecodeRuneInString(expr[pos:])
+	return w
 }
